@@ -54,6 +54,10 @@ pub fn dispatch(op: &str, a: &[Val]) -> Option<Val> {
         "t.suboff" => (|| Some(enc_time(dec_time(a.get(0)?)? - off(a.get(1)?)?)))(),
         "t.addoffd" => (|| offd(dec_time(a.get(0)?)?, off(a.get(1)?)?, false))(),
         "t.suboffd" => (|| offd(dec_time(a.get(0)?)?, off(a.get(1)?)?, true))(),
+        "ndt.add" => (|| Some(vopt(dec_ndt(a.get(0)?)?.checked_add_signed(dec_td(a.get(1)?)?), enc_ndt)))(),
+        "ndt.sub" => (|| Some(vopt(dec_ndt(a.get(0)?)?.checked_sub_signed(dec_td(a.get(1)?)?), enc_ndt)))(),
+        "ndt.opadd" => (|| Some(enc_ndt(dec_ndt(a.get(0)?)? + dec_td(a.get(1)?)?)))(),
+        "ndt.opsub" => (|| Some(enc_ndt(dec_ndt(a.get(0)?)? - dec_td(a.get(1)?)?)))(),
         _ => return None,
     };
     Some(r.unwrap_or_else(bad))
